@@ -90,6 +90,38 @@ func raceMain(args []string) int {
 		close(start)
 		wg.Wait()
 		rec := raceRec{Hist: hid, Threads: len(threads), Problems: []string{}}
+		// every root a goroutine persisted must be complete in the store itself (read back without the cache),
+		// with the contents it has when that goroutine runs alone
+		final := func(w *runner.World, t int, os_ []string) []string {
+			var res []string
+			n := 0
+			for _, o := range os_ {
+				f := strings.Fields(o)
+				if f[0] == "mkroot" {
+					n++
+					id := strconv.Itoa(9000 + 100*t + n)
+					r := w.Exec("loadnc " + f[2] + " " + id + " 0 " + opts["kind"])
+					if r.Outcome == "ok" {
+						r = w.Exec("iter " + id)
+					}
+					res = append(res, f[2]+": "+r.Outcome+" "+r.Payload+r.ErrText)
+				}
+			}
+			return res
+		}
+		for t, os_ := range threads {
+			wa := fresh()
+			for _, o := range os_ {
+				wa.Exec(o)
+			}
+			exp, gotf := final(wa, t, os_), final(w, t, os_)
+			for i := range exp {
+				if i < len(gotf) && exp[i] != gotf[i] {
+					rec.Problems = append(rec.Problems, "goroutine "+strconv.Itoa(t)+": root "+cut(gotf[i])+" read back from the store alone; alone it is "+cut(exp[i]))
+					break
+				}
+			}
+		}
 		for t, os_ := range threads {
 			rec.Ops += len(os_)
 			for i := range os_ {
